@@ -128,9 +128,9 @@ impl<T> Write for WebsocketStreamWrapper<T> where T : Read + Write {
                 Ok(buf.len())
             }
             // The message has been queued inside tungstenite and will go out with later calls; only the attempt to
-            // flush it to the socket would have blocked.  The bytes are consumed: reporting WouldBlock here would make
+            // flush it to the socket would have blocked (or was interrupted).  The bytes are consumed: reporting WouldBlock here would make
             // the caller offer them again, and they would be sent twice.
-            Err(Error::Io(io_error)) if io_error.kind() == ErrorKind::WouldBlock => {
+            Err(Error::Io(io_error)) if io_error.kind() == ErrorKind::WouldBlock || io_error.kind() == ErrorKind::Interrupted => {
                 Ok(buf.len())
             }
             Err(err) => {
